@@ -11,7 +11,32 @@ sys.path.insert(0, os.path.join(os.path.dirname(os.path.dirname(HERE)), "tools")
 import vxlib  # noqa: E402
 from vxlib import Undecided  # noqa: E402
 
-ASSUMPTIONS = []
+ASSUMPTIONS = [
+    "ghost Kernel{audit: Map<source port, AuditEntry>, loaded}: the audit_map of linux-ebpf/ebpf_cgroup.c seen through its key layout {protocol=IPPROTO_TCP(6), source_port} "
+    "and value layout 5 x u32 {logon_id, process_id, is_root, destination_ipv4, destination_port} (what the hook stores is C06's business); a kernel write is an "
+    "insert for the connecting socket's source port; `loaded` = the redirector actor hands out a BPF object with a well-formed audit_map",
+    "crate aya 0.13.1 is NOT linked into the unit: contracts/conn/aya_standin.rs transcribes the signatures of Ebpf::map/map_mut, maps::HashMap::get/remove and "
+    "TryFrom<&Map>/<&mut Map> (rustc checks the extracted linux.rs text against the stand-in). Behaviour is ASSUMED at six E9 sites in BpfObject::{lookup_audit,"
+    "remove_audit_map_entry}: map()/map_mut()/try_from succeed on a loaded object for the name \"audit_map\"; get(key,0) is Ok iff the key is present and returns its "
+    "value; remove(key) is Ok iff the key is present (bpf_map_delete_elem fails only with ENOENT) and then removes exactly that key, nothing else changes. "
+    "What is PROVED there: both functions build the key sock_addr_audit_key::from_source_port(source_port).to_array() == [6, port] and decode the value field by field",
+    "RedirectorSharedState::get_bpf_object (stub): Ok(Some(_)) iff loaded; the BPF object is not cleared between the two awaits (lookup, remove) of one accept "
+    "(clear_bpf_object is only called by redirector::close at shutdown); std::sync::Mutex::lock on the BpfObject mutex is not poisoned (DESIGN 2.5 item 8)",
+    "await-interleaving model: the ghost map is threaded sequentially through ONE accept; other tasks (concurrently accepted connections) only remove THEIR source port "
+    "(proved frame: final == old.remove(port)), and two live connections to the listener have different source ports; lemma_accepts_on_distinct_ports_commute",
+    "derived Clone of TcpConnectionContext copies id, client_addr, claims, destination_ip, destination_port, sender (E9 vx_e9_tcp_ctx_clone; the log queue is "
+    "deliberately NOT copied by ConnectionLogger::clone, so equality of whole contexts is not claimed); derived Clone of ProxyServer unconstrained",
+    "proxy_server.rs hand-over: three verified slices (accept path / service_fn closure / per-request closure) are linked by rustc's lexical capture of `move` closures; "
+    "syntactic census on every run (UNDECIDED if it changes): handle_new_http_request has exactly one caller, the context is mentioned under the two names "
+    "tcp_connection_context (x2) and cloned_tcp_connection_context (x4) only, both closures are `move`. hyper/tower deliver each request of a connection to the "
+    "service built for that connection (hyper::server::conn::http1::Builder::serve_connection; not verified)",
+    "E9 vx_e9_build_upstream_sender (statement range of TcpConnectionContext::new): FnMut logging closure + hyper_client::build_http_sender + Client{sender}; not verified, "
+    "but its REQUIRES (host text/port == destination decoded from this connection's record) is proved at the call site",
+    "Process::from_pid(pid).pid == pid; get_user / ConnectionLogger::{new,write,clone} unconstrained stubs; ProxyServer::handle_new_http_request is a stub here "
+    "(its C01/C05/C11 contracts, proved in unit handler, mention only its own tcp_connection_context parameter: refusal_status == 421 when claims or destination is None)",
+    "u16::from_be, u32::to_be, Ipv4Addr::from_bits, SocketAddr::{ip,port}, IpAddr/Ipv4Addr to_string are only NAMED (uninterpreted); Display of Error / aya MapError does not panic; "
+    "common::error::Error and BpfErrorType are declared transparent external enums (constructed by the verified code)",
+]
 FN_PROPS = {}
 
 K = "Tracked(k): Tracked<&mut Kernel>"
